@@ -132,6 +132,19 @@ def summarize(rep: Report, jobs, results, prop, level, rule, extra_cov=None, fea
         "known_findings_hit": dict(rep.known_hits),
         "functions_encoded": "emitted TEAL of every program (SymAVM); reference = recipe semantics (verif/recipe/ref.py)",
     }
+    def _vals(key):
+        out = set()
+        for j in jobs:
+            v = j.get(key)
+            if v is None:
+                continue
+            out.add(tuple(v) if isinstance(v, (list, tuple)) else v)
+        return sorted(out, key=str)[:12]
+    cov["bounds"] = {"loop iterations per loop head (reference side; the TEAL side gets 2K+2)": _vals("loop_k"),
+                     "call depth": _vals("call_depth"), "byte-string input lengths": _vals("lens"),
+                     "versions": sorted({j["version"] for j in jobs if "version" in j}),
+                     "solver timeout per query (ms)": _vals("timeout_ms") or [10000],
+                     "outside the claim": "programs beyond the enumerated families; iteration counts / recursion depths / lengths above the listed ones; opcode budget; crypto ops are uninterpreted"}
     if extra_cov:
         cov.update(extra_cov)
     # too many unexplained crashes -> cannot explore
